@@ -1,7 +1,7 @@
 (* CLI commands of the extracted binary: directory modes over (name, content) pairs. *)
 From Coq Require Import List NArith ZArith Bool Arith.
 From PV Require Import Base.Bytes Base.Lit Base.Json Base.Utf8 Base.PelTypes Base.TextOrder
-                       Model.Parse Model.Render Model.Pel Model.Env Model.Select Model.Cli Model.CliPel Extract.ApiPel.
+                       Model.Parse Model.Render Model.Pel Model.Env Model.Select Model.Cli Model.CliPel Model.Clean Extract.ApiPel.
 Import ListNotations.
 Open Scope N_scope.
 
@@ -56,6 +56,19 @@ Definition run_cli (cmd : text) (args : list bytes) : option text :=
       else if mode =? 4 then Some (mode_selected_list d c (src_names d c (Some extra) None content names) content)
       else Some (mode_selected_list d c (src_names d c None (Some extra) content names) content) in
     Some (render (match out with Some o => render_stdout o | None => JObj [(L "exit", JStr (L "Invalid length of ID is provided!"))] end))
+  else if is_cmd cmd (L "clean_trace") then
+    (* args: path (0 json, 1 file), decode outcome (0 ok, 1 filtered, 2 reject), clean flag, fault bits (OpenOut Write Close Print Flush Remove) *)
+    let d := let v := be_val (arg 1 args) 0 in if v =? 0 then DOk else if v =? 1 then DFiltered else DReject in
+    let cl := negb (be_val (arg 2 args) 0 =? 0) in
+    let fb := be_val (arg 3 args) 0 in
+    let idx (st : step) : N := match st with OpenOut => 0 | Write => 1 | Close => 2 | Print => 3 | Flush => 4 | RemoveIn => 5 end in
+    let f := fun st => N.testbit fb (idx st) in
+    let json := be_val (arg 0 args) 0 =? 0 in
+    let tr := if json then json_trace f d cl else file_trace f d cl in
+    let name (st : step) := match st with OpenOut => L "open" | Write => L "write" | Close => L "close" | Print => L "print" | Flush => L "flush" | RemoveIn => L "remove" end in
+    Some (render (JObj [(L "trace", jstrs (map name tr));
+                        (L "removed", JBool (removed_in f tr));
+                        (L "complete", JBool (if json then json_complete f tr else file_complete f tr))]))
   else if is_cmd cmd (L "cli_effects") then
     (* args: action (0 delete, 1 delete-all, 2 json, 3 other), flags (bit0 clean, bit2 plugins), selection byte, severities,
        extension, id, then name / regular-flag / content triples in os.walk order *)
